@@ -156,6 +156,21 @@ fn p_obj_ret_tmp_last() {
 }
 #[kani::proof]
 #[kani::unwind(14)]
+fn p_obj_ret_tmp_size() {
+    // the temporary storage is exactly one borrowed child object INCLUDING its copy of the context:
+    // vtable pointer + instance reference + context
+    let child_words = 1 + 1 + 3;
+    assert!(size_of::<TlendBaseArcBox<Imp, u64>>() == (1 + 2 + 3 + child_words) * W, "C04 by-ref lender with an arc context: temporary storage holds a whole child object");
+    assert!(size_of::<TlendMutBaseArcBox<Imp, u64>>() == (1 + 2 + 3 + child_words) * W, "C04 by-mut lender with an arc context: temporary storage holds a whole child object");
+    assert!(size_of::<TlendLtBaseArcBox<Imp, u64>>() == (1 + 2 + 3 + child_words) * W, "C04 lifetime-bound by-mut lender with an arc context: temporary storage holds a whole child object");
+    assert!(size_of::<TlendMutBaseBox<Imp>>() == (1 + 2 + 2) * W, "C04 without context the child is vtable pointer + instance reference");
+    let x: u64 = kani::any();
+    let mut obj: TlendLtBaseArcBox<Imp, u64> = From::from((CBox::from(Imp { v: x }), CArc::from(x)));
+    assert!(obj.lend_lt().q() == x ^ 3, "C04 lending through the lifetime-bound by-mut path stays inside the object");
+    kani::cover!(true, "end");
+}
+#[kani::proof]
+#[kani::unwind(14)]
 fn p_vtbl_assoc_between() {
     type C = CGlueObjContainer<CBox<'static, Imp>, NoContext, TlendRetTmp<NoContext>>;
     assert!(size_of::<TlendVtbl<C>>() == 3 * W, "C04 every method keeps its slot when an associated type is declared between methods");
